@@ -71,6 +71,13 @@ fn main() {
         "tabmem" => tabmem(args),
         "huff" => huff(args),
         "huffl" => huffl(args),
+        // huffc <cap> <lens> <bits> <n>: as `huff`, through a BitBufReader of that capacity (many refills)
+        "huffc" => {
+            CAP.with(|c| c.set(args[0].parse().unwrap()));
+            let r = huff(&args[1..]);
+            CAP.with(|c| c.set(4096));
+            r
+        }
         "huffsym" => huffsym(args),
         "hufftree" => hufftree(args),
         _ => format!("unknown-kind {kind}"),
@@ -153,11 +160,16 @@ fn fmt_syms(syms: &[u16]) -> String {
     }
 }
 
+thread_local! {
+    /// capacity of the BitBufReader the decoding goes through (`huffc <cap> ...` sets it; 4096 as in webpsan otherwise)
+    static CAP: Cell<usize> = const { Cell::new(4096) };
+}
+
 fn decode_with(tree: &CanonicalHuffmanTree<LittleEndian, u16>, bits: &[bool], n: usize) -> String {
     let nbits = bits.len() as u64;
     let pulled = Rc::new(Cell::new(0u64));
     let input = Counting { inner: Cursor::new(pack(bits)), pulled: pulled.clone() };
-    let mut reader = BitBufReader::<_, LittleEndian>::with_capacity(input, 4096);
+    let mut reader = BitBufReader::<_, LittleEndian>::with_capacity(input, CAP.with(|c| c.get()));
     let mut syms = vec![];
     let mut consumed = 0u64;
     for _ in 0..n {
